@@ -99,6 +99,17 @@ impl Property for C16 {
         for (step, op) in ops.iter().enumerate() {
             let kind = op["op"].as_str().unwrap_or("").to_string();
             let is_cd = matches!(kind.as_str(), "set_data" | "append_data" | "insert_data" | "delete_data" | "replace_data" | "substring" | "length" | "split_text");
+            // with a document type its entity declarations go, and the data of text that refers to them with it: the
+            // model of such nodes is void from there on, so the history ends
+            let drops_doctype = match kind.as_str() {
+                "remove" => matches!(pool.nodes[pool.idx(&op["c"])], XmlNode::DocumentType(_)),
+                "replace" => matches!(pool.nodes[pool.idx(&op["o"])], XmlNode::DocumentType(_)),
+                _ => false,
+            };
+            if drops_doctype {
+                obs.label("history-ended:document-type-taken-out");
+                break;
+            }
             if !is_cd {
                 let before = pool.nodes.len();
                 let out = hist::apply(&mut pool, op);
